@@ -654,7 +654,10 @@ def frozen_default_risk(prog, env):
     if not prog["reg"]:
         return False
     regname = prog["reg"][0]
-    r0, r1 = Ref(prog, {}), Ref(prog, env)
+    try:
+        r0, r1 = Ref(prog, {}), Ref(prog, env)
+    except Invalid:
+        return False  # not a valid program under one of the environments: nothing to freeze
     for m in prog["maps"]:
         sel = m[2]
         if sel and sel[0] == "s" and sel[2] is None and m[1] != regname:
